@@ -2,6 +2,7 @@ package simrt
 
 import (
 	"fmt"
+	"runtime"
 	"sync"
 	"time"
 )
@@ -68,6 +69,7 @@ type Task struct {
 	Panic   any
 	lastSite int
 	Root    int // the root task this goroutine descends from (itself for a caller task)
+	SyncObjs map[any]bool // synchronisation objects touched since the harness last reset it (per call)
 	parent  int
 	pending map[cellKey]*pendRead // reads of package variables mentioned in the current call, not yet committed
 }
@@ -97,6 +99,8 @@ type Sched struct {
 	Overrun   bool
 	globalSync []uint32
 	wseq      int
+	baseGoroutines int
+	UnownedSeen    bool
 	MaxTasks  int // beyond this many tasks, go statements run inline
 	GoCalls   int
 	InlineGo  int
@@ -190,7 +194,15 @@ func (s *Sched) pickOther(kind string, from *Task) *Task {
 
 // Run executes all tasks to completion under the scheduler. It returns false if the run
 // stalled (a task blocked in something the simulator does not own).
+// Unowned reports that more goroutines exist than the scheduler started: something (a
+// dependency, the library through a construct the instrumenter did not rewrite) runs
+// concurrently with the simulation, so its interleaving is not the simulator's choice.
+func (s *Sched) Unowned() bool {
+	return runtime.NumGoroutine() > s.baseGoroutines+len(s.Tasks)+2
+}
+
 func (s *Sched) Run(watchdog time.Duration) bool {
+	s.baseGoroutines = runtime.NumGoroutine()
 	sched = s
 	s.done = make(chan struct{}, 1)
 	n := len(s.Tasks)
@@ -276,6 +288,15 @@ func (s *Sched) yield(site int, class int) {
 		t.AccYields++
 	}
 	t.lastSite = site
+	if n&1023 == 1023 && s.Unowned() {
+		// goroutines the scheduler did not start are running: this run is not a simulation
+		s.UnownedSeen = true
+		select {
+		case s.done <- struct{}{}:
+		default:
+		}
+		select {} // park for good; the harness stops using this process for lane A
+	}
 	if s.AbortYields > 0 && s.YieldN > s.AbortYields && t.depth > 0 {
 		s.Overrun = true
 		s.Frozen = true
@@ -391,6 +412,7 @@ func SyncOp(site int) {
 	}
 	if s := sched; s != nil && s.cur != nil {
 		s.cur.SyncOps++
+		s.cur.touch(globalSyncToken{})
 		s.yield(site, 1)
 		// atomics / sync.Map / sync.Pool operations are modelled as acquire+release of one
 		// global synchronisation object: more happens-before edges than the real thing, hence
@@ -429,6 +451,16 @@ func CallDepth(d int) {
 		s.cur.depth = d
 	}
 }
+
+func (t *Task) touch(o any) {
+	if t.SyncObjs == nil {
+		t.SyncObjs = map[any]bool{}
+	}
+	t.SyncObjs[o] = true
+}
+
+// globalSyncToken stands for "some atomic / sync.Map / sync.Pool operation".
+type globalSyncToken struct{}
 
 // CurTask returns the running task (nil outside the scheduler).
 func CurTask() *Task {
@@ -482,6 +514,7 @@ func (s *Sched) mutexFor(key any) *simMutex {
 func (s *Sched) lock(key any, site int, shared bool) {
 	t := s.cur
 	t.SyncOps++
+	t.touch(key)
 	s.yield(site, 1)
 	m := s.mutexFor(key)
 	for {
@@ -503,6 +536,7 @@ func (s *Sched) lock(key any, site int, shared bool) {
 func (s *Sched) unlock(key any, site int, shared bool) {
 	t := s.cur
 	t.SyncOps++
+	t.touch(key)
 	m := s.mutexFor(key)
 	if shared {
 		if m.readers[t] > 0 {
@@ -552,6 +586,7 @@ func MutexTryLock(site int, m *sync.Mutex) bool {
 	if s := inSim(); s != nil {
 		sm := s.mutexFor(m)
 		s.cur.SyncOps++
+		s.cur.touch(m)
 		if sm.owner == nil && len(sm.readers) == 0 {
 			sm.owner = s.cur
 			s.cur.acquire(sm.vc)
@@ -610,6 +645,7 @@ func OnceDo(site int, o *sync.Once, f func()) {
 	}
 	t := s.cur
 	t.SyncOps++
+	t.touch(o)
 	s.yield(site, 1)
 	so := s.onces[o]
 	if so == nil {
@@ -663,6 +699,7 @@ func WGAdd(site int, w *sync.WaitGroup, n int) {
 		g := s.wgFor(w)
 		g.n += n
 		s.cur.SyncOps++
+		s.cur.touch(w)
 		if n < 0 {
 			s.cur.release(&g.vc)
 		}
@@ -697,6 +734,7 @@ func WGWait(site int, w *sync.WaitGroup) {
 	if s := inSim(); s != nil {
 		t := s.cur
 		t.SyncOps++
+		t.touch(w)
 		s.yield(site, 1)
 		g := s.wgFor(w)
 		for g.n > 0 {
@@ -769,6 +807,34 @@ func Go8[A, B, C, D, E, F, G, H any](site int, f func(A, B, C, D, E, F, G, H), a
 	Go(site, func() { f(a, b, c, d, e, g, h, i) })
 }
 
+// Bind0 makes the closure that stands for a method value of a sync primitive.
+func Bind0[T any](shim func(int, *T), site int, r *T) func() { return func() { shim(site, r) } }
+
+// LockerLock / LockerUnlock replace Lock/Unlock calls on a sync.Locker: the shim is chosen
+// by the dynamic type.
+func LockerLock(site int, l sync.Locker) {
+	switch m := l.(type) {
+	case *sync.Mutex:
+		MutexLock(site, m)
+	case *sync.RWMutex:
+		RWLock(site, m)
+	default:
+		SyncOp(site)
+		l.Lock()
+	}
+}
+func LockerUnlock(site int, l sync.Locker) {
+	switch m := l.(type) {
+	case *sync.Mutex:
+		MutexUnlock(site, m)
+	case *sync.RWMutex:
+		RWUnlock(site, m)
+	default:
+		SyncOp(site)
+		l.Unlock()
+	}
+}
+
 // shimOnces: the sync.Once values hidden inside closures made by OnceFunc/OnceValue(s).
 // Those created before the snapshot (package initialisers) are reset with the package state.
 var shimOnces []*sync.Once
@@ -821,3 +887,23 @@ func RegisterGlobals(pkg string, gs []Global) {
 func (r Race) String() string {
 	return fmt.Sprintf("%s var=%d task%d@site%d(call %d) / task%d@site%d(call %d)", r.Kind, r.Var, r.TaskA, r.SiteA, r.CallA, r.TaskB, r.SiteB, r.CallB)
 }
+
+// GoRn / GoRRn: the callee of a go statement returns one / two values (discarded).
+func GoR0[R any](site int, f func() R) { Go(site, func() { f() }) }
+func GoRR0[R1, R2 any](site int, f func() (R1, R2)) { Go(site, func() { f() }) }
+func GoR1[A, R any](site int, f func(A) R, a0 A) { Go(site, func() { f(a0) }) }
+func GoRR1[A, R1, R2 any](site int, f func(A) (R1, R2), a0 A) { Go(site, func() { f(a0) }) }
+func GoR2[A, B, R any](site int, f func(A, B) R, a0 A, b1 B) { Go(site, func() { f(a0, b1) }) }
+func GoRR2[A, B, R1, R2 any](site int, f func(A, B) (R1, R2), a0 A, b1 B) { Go(site, func() { f(a0, b1) }) }
+func GoR3[A, B, C, R any](site int, f func(A, B, C) R, a0 A, b1 B, c2 C) { Go(site, func() { f(a0, b1, c2) }) }
+func GoRR3[A, B, C, R1, R2 any](site int, f func(A, B, C) (R1, R2), a0 A, b1 B, c2 C) { Go(site, func() { f(a0, b1, c2) }) }
+func GoR4[A, B, C, D, R any](site int, f func(A, B, C, D) R, a0 A, b1 B, c2 C, d3 D) { Go(site, func() { f(a0, b1, c2, d3) }) }
+func GoRR4[A, B, C, D, R1, R2 any](site int, f func(A, B, C, D) (R1, R2), a0 A, b1 B, c2 C, d3 D) { Go(site, func() { f(a0, b1, c2, d3) }) }
+func GoR5[A, B, C, D, E, R any](site int, f func(A, B, C, D, E) R, a0 A, b1 B, c2 C, d3 D, e4 E) { Go(site, func() { f(a0, b1, c2, d3, e4) }) }
+func GoRR5[A, B, C, D, E, R1, R2 any](site int, f func(A, B, C, D, E) (R1, R2), a0 A, b1 B, c2 C, d3 D, e4 E) { Go(site, func() { f(a0, b1, c2, d3, e4) }) }
+func GoR6[A, B, C, D, E, F, R any](site int, f func(A, B, C, D, E, F) R, a0 A, b1 B, c2 C, d3 D, e4 E, f5 F) { Go(site, func() { f(a0, b1, c2, d3, e4, f5) }) }
+func GoRR6[A, B, C, D, E, F, R1, R2 any](site int, f func(A, B, C, D, E, F) (R1, R2), a0 A, b1 B, c2 C, d3 D, e4 E, f5 F) { Go(site, func() { f(a0, b1, c2, d3, e4, f5) }) }
+func GoR7[A, B, C, D, E, F, G, R any](site int, f func(A, B, C, D, E, F, G) R, a0 A, b1 B, c2 C, d3 D, e4 E, f5 F, g6 G) { Go(site, func() { f(a0, b1, c2, d3, e4, f5, g6) }) }
+func GoRR7[A, B, C, D, E, F, G, R1, R2 any](site int, f func(A, B, C, D, E, F, G) (R1, R2), a0 A, b1 B, c2 C, d3 D, e4 E, f5 F, g6 G) { Go(site, func() { f(a0, b1, c2, d3, e4, f5, g6) }) }
+func GoR8[A, B, C, D, E, F, G, H, R any](site int, f func(A, B, C, D, E, F, G, H) R, a0 A, b1 B, c2 C, d3 D, e4 E, f5 F, g6 G, h7 H) { Go(site, func() { f(a0, b1, c2, d3, e4, f5, g6, h7) }) }
+func GoRR8[A, B, C, D, E, F, G, H, R1, R2 any](site int, f func(A, B, C, D, E, F, G, H) (R1, R2), a0 A, b1 B, c2 C, d3 D, e4 E, f5 F, g6 G, h7 H) { Go(site, func() { f(a0, b1, c2, d3, e4, f5, g6, h7) }) }
